@@ -127,14 +127,31 @@ def cdda_pair(scratch, rng):
 def run(ctx, rep: Report, deep: bool = False):
     rng = ctx.rng
     rep.rule = (
-        "histories of 2-8 operations (ls at valid / invalid / too-deep paths, export) on ONE opened image object versus a fresh object per operation; AKAI images (gen_akai) and CDDA bin/cue pairs; "
+        "histories of 2-9 operations (ls at valid / invalid / too-deep paths, export; the same item listed twice and around exports) on ONE opened image object versus a fresh object per operation; AKAI images with looped samples (gen_akai), Roland images (gen_roland) and CDDA bin/cue pairs; "
         "the image file's SHA-256 before/after; for AKAI the fresh answers are also compared with the Lean model (a pure function of the image bytes); distinct = (image, history); non-trivial = history with >= 2 operations of which at least one export"
     )
     cases = []
     for i in range(ctx.n(24, 400)):
         with E.Scratch() as s:
-            if i % 3 != 2:
+            if i % 4 == 3:
+                import gen_roland as GR
+
+                rdisc = GR.random_disc(rng)
+                while not GR.expected_export(rdisc):
+                    rdisc = GR.random_disc(rng)
+                rimg, _ = GR.serialize(rdisc, rng)
+                p = s.write("disc.img", rimg)
+                paths = [""] + sorted({x[:-4] for x in GR.expected_export(rdisc)} | {x.rsplit("/", 1)[0] for x in GR.expected_export(rdisc)})[:6]
+                kind = "roland"
+            elif i % 3 != 2:
                 disc = G.random_disc(rng)
+                # looped samples and programs: state that a listing or an export may consume
+                for part in disc.partitions:
+                    for vol in part.volumes:
+                        for f in vol.files:
+                            if f.kind == "sample" and rng.random() < 0.6:
+                                f.loop_type = rng.choice([0, 1, 3, 4])
+                                f.loops = [G.Loop(at=rng.randrange(1, 5000), coarse=rng.randrange(0, 400), duration=rng.choice([0, 5, 9999, 300])) for _ in range(rng.randint(1, 4))]
                 img, _ = G.serialize(disc, rng)
                 p = s.write("disc.img", img)
                 paths = FA.ls_paths(disc)
@@ -146,6 +163,11 @@ def run(ctx, rep: Report, deep: bool = False):
             ops = history_ops(rng, paths, rng.randint(2, 8))
             if i % 4 == 0:
                 ops = [("export",), ("export",)] + ops[:2]
+            # the same item listed twice, and listed around an export (leaf items are the deepest paths)
+            deep_paths = sorted(paths, key=lambda x: -x.count("/"))[:4]
+            if deep_paths and i % 2 == 1:
+                t = rng.choice(deep_paths)
+                ops = [("ls", t), ("ls", t), ("export",), ("ls", t), ("export",)] + ops[:2]
             outs, fresh = run_history(rep, p, ops, kind)
             rep.evaluations += 1
             rep.nontrivial.add((i, tuple(ops)))
@@ -164,7 +186,7 @@ def run(ctx, rep: Report, deep: bool = False):
                             rep.disagreements.append({"family": "akai-history", "op": str(op), "model": m[:500], "impl": fr[:500], "meta": None})
                 rep.feat("model_compared")
     rep.sample({"family": "history", "example": [["ls", "A:"], ["export"], ["ls", "A:/VOL 00"], ["export"]]})
-    rep.required_features = ["akai_histories", "cdda_histories", "histories_with_repeated_export", "model_compared"]
+    rep.required_features = ["akai_histories", "cdda_histories", "roland_histories", "histories_with_repeated_export", "model_compared"]
 
 
 def search(ctx, rep: Report):
